@@ -9,10 +9,12 @@ rendered output is parsed with html.parser) and by document-level injection; the
 scheme oracle over obfuscated destinations.  (A template-level theorem over extracted render methods is planned.)"""
 import re, json, copy
 from html.parser import HTMLParser
+import tmpltie
 import common, gen, configs
 
 LEVEL = "proof"
-THEOREMS = ["Mistune.escape_no_specials", "Mistune.safeEntity_no_specials", "Mistune.escapeUrl_attr_safe", "Mistune.quote_ok", "Mistune.escape_eq_flatMap"]
+THEOREMS = ["Mistune.escape_no_specials", "Mistune.safeEntity_no_specials", "Mistune.escapeUrl_attr_safe", "Mistune.quote_ok", "Mistune.escape_eq_flatMap",
+            "Mistune.templates_ok", "Mistune.templates_none_opaque", "Mistune.evalPieces_safe", "Mistune.evalTmpl_safe", "Mistune.renderTok_safe", "Mistune.render_safe"]
 
 CANARIES = ['<xq9 yq9="1">', '"><xq9 onq9="1">', "'><xq9>", '" onq9="1', "</p><xq9>", "-->", "<!--", "<script>xq9</script>", "&lt;xq9&gt;", '\\"<xq9>', "`<xq9>`", "javascript:xq9"]
 # free-text fields of tokens (data that comes verbatim from the input); alphabet-restricted fields (ruby raw/rt, heading id,
@@ -215,20 +217,24 @@ def run(ctx):
                 configs.C("all-rst", plugins=configs.PLUGINS, directives="rst"), configs.C("all-hardwrap", hard_wrap=True, plugins=configs.PLUGINS)]
     noesc = [configs.C("noesc-all-rst", escape=False, plugins=configs.PLUGINS, directives="rst"), configs.C("noesc-core", escape=False)]
     docs = [gen.md_any(ctx.rng, 7) for _ in range(300 if q else 4000)] + [t.replace("{c}", "zz").replace("{{", "{").replace("}}", "}") + "\n" for t in DOC_TEMPLATES]
+    n0 = tmpltie.stage(ctx, docs if q else docs[:3000], esc_cfgs + noesc)
     n1 = token_level(ctx, docs, esc_cfgs)
     n2 = doc_level(ctx, 5000 if q else 80000, esc_cfgs + noesc)
     if ctx.broken and not [f for f in ctx.failures if not ctx.is_known(f["signature"])]:
         ctx.notes.append("search mode entered")
         n2 += doc_level(ctx, 60000, esc_cfgs + noesc)
     ctx.cov.update({
-        "evaluations": n1 + n2, "distinct_nontrivial": n1 + n2,
-        "rule": "token-level: every free-text field (raw of text/code/HTML/math/error/include leaves; title, info, alt, class, figclass, figwidth, url, src, target, width, height) of real token trees "
+        "evaluations": n0 + n1 + n2, "distinct_nontrivial": n1 + n2,
+        "rule": "template tie: every HTML render method translated from its AST to a template (regenerated every run), probed against the real method, and the model's rendering of the token list the "
+                "renderer actually receives compared for equality with the returned HTML; `refinedOk` (hypothesis of render_safe) evaluated on those trees; "
+                "token-level: every free-text field (raw of text/code/HTML/math/error/include leaves; title, info, alt, class, figclass, figwidth, url, src, target, width, height) of real token trees "
                 "replaced by a markup canary, rendered with escape=True under core / all plugins / both directive syntaxes, output parsed with html.parser (no canary element, attribute or comment); "
                 "document-level: %d construct templates x %d canaries; URL clause: %d obfuscated script-URL spellings x %d destination constructs under escape on and off" % (len(DOC_TEMPLATES), len(CANARIES), len(SCHEMES), len(URL_TEMPLATES)),
         "samples": [DOC_TEMPLATES[8].replace("{c}", CANARIES[1]), URL_TEMPLATES[0].replace("{u}", SCHEMES[8])],
     })
-    ctx.assumptions += ["which escaper each render method applies is established by injection on every run, not by a template-level theorem (planned)",
-                        "alphabet-restricted token fields (ruby text, heading id from the built-in id generator, table align, admonition name, integers) are grammar refinements and are not injected",
+    ctx.assumptions += ["render_safe speaks about the extracted templates: the extraction (harness/tmpl.py, symbolic execution of the method ASTs) is tied by probing and by exact equality on real token trees, not proved",
+                        "alphabet-restricted token fields (ruby text, heading id from the built-in id generator, table align, admonition name, integers) are hypotheses of the theorem (`refinedOk`), evaluated on every real tree of the run, not derived from the parser",
+                        "block_error is exempt from the template obligation (known finding)",
                         "html.parser as the reference HTML tokenizer; browser URL normalisation modelled as: drop TAB/CR/LF, strip leading C0/space, case-fold"]
 
 
